@@ -38,15 +38,17 @@ THEOREMS = [
     "Cppcheck.Glob.glob_eq_spec_partial", "Cppcheck.Glob.glob_starstar_counterexample",
     "Cppcheck.Suppress.isSuppressed_matched_iff_spec", "Cppcheck.Suppress.supprExact_eq",
     "Cppcheck.Suppress.isSuppressed_starstar_regression",
-    "Cppcheck.Suppress.listIsSuppressed_iff", "Cppcheck.Suppress.reported_iff_unsuppressed",
-    "Cppcheck.Suppress.reported_iff_unsuppressed_nosafety", "Cppcheck.Suppress.reported_duptext_counterexample",
+    "Cppcheck.Suppress.listIsSuppressed_iff", "Cppcheck.Suppress.reported_iff_unsuppressed_gen",
+    "Cppcheck.Suppress.reported_iff_unsuppressed", "Cppcheck.Suppress.reported_iff_unsuppressed_nosafety",
+    "Cppcheck.Suppress.reported_sound", "Cppcheck.Suppress.reported_duptext_counterexample",
+    "Cppcheck.Suppress.reported_texts_fixed", "Cppcheck.Suppress.reported_texts",
     "Cppcheck.Suppress.nofail_does_not_hide", "Cppcheck.Suppress.line_semantics",
     "Cppcheck.SuppressParse.parse_print", "Cppcheck.SuppressParse.strToInt_intToDec",
 ]
 MODULES = ["Cppcheck.Props.C23"]
 
-KEY_F8 = "glob-star-followed-by-wildcard"
-KEY_DUP = "suppressed-duplicate-text-shadows-unsuppressed"
+# Both defects this check found are repaired in /repo (1cf3800 matchglob, 9e24c55 duplicate filter; known_findings: kind
+# "fixed"): their input classes are ordinary violations again, no classifier key absorbs them.
 
 hx = core.hx
 
@@ -497,18 +499,31 @@ def load_corpus():
     return json.load(open(p)) if os.path.exists(p) else {}
 
 
-def not_star_ok(p):
-    """python mirror of Glob.starOk (classification only)"""
-    p = p.split("\x00")[0]
-    for i, c in enumerate(p):
-        if c == "*":
-            r = p[i + 1:]
-            if r and not all(x == "*" for x in r) and r[0] in "*?":
-                return True
-    return False
+MAX_PER_KIND = 8
+
+
+def cap_violations(res):
+    """keep the first few failing inputs of each kind: one replay file per input is written, hundreds help nobody"""
+    seen, kept = {}, []
+    for v in res.violations:
+        k = (v["replay"].get("kind"), v.get("key"))
+        seen[k] = seen.get(k, 0) + 1
+        if seen[k] <= MAX_PER_KIND:
+            kept.append(v)
+    for k, n in seen.items():
+        if n > MAX_PER_KIND:
+            res.count("violations-not-listed:%s" % k[0], n - MAX_PER_KIND)
+    res.violations[:] = kept
 
 
 def run(ctx, res):
+    try:
+        run_all(ctx, res)
+    finally:
+        cap_violations(res)
+
+
+def run_all(ctx, res):
     rng = ctx.rng
     thorough = ctx.tier == "thorough"
     import time
@@ -516,6 +531,10 @@ def run(ctx, res):
     core.prove(ctx, res, MODULES, THEOREMS)
     drv = ctx.driver("drv_c23")
     exe = ctx.harness("c23")
+    if os.environ.get("C23_HARNESS"):
+        # mutation experiments only (docs/C23.md): a harness linked against a hand-mutated copy of a lib source
+        exe = os.environ["C23_HARNESS"]
+        res.oblig("machinery:harness-override", False, "machinery", "C23_HARNESS is set: this run does not judge the working tree")
     res.extra["prove_and_build_s"] = round(time.time() - t0, 1)
     t0 = time.time()
     corpus = load_corpus()
@@ -538,7 +557,7 @@ def run(ctx, res):
         if hf[3 if t.get("sw") == "1" else 5] != real and not os.environ.get("C23_MUTANT") and selfcheck_bad is None:
             selfcheck_bad = (p, n)
         if ci == 0 and real != t.get("spec"):
-            key = KEY_F8 if (t.get("sw") == "0" and not_star_ok(p) and real == "0") else None
+            key = None
             res.violation("matchglob(%r, %r) = %s but the documented glob language (`*` any string, `?` any character) says %s" % (p, n, real, t.get("spec")),
                           dict(kind="glob", ci=ci, pattern=p, name=n, real=real, documented=t.get("spec")), concrete=True, key=key)
     res.oblig("harness-selfcheck:matchglob-copy", selfcheck_bad is None, "correspondence",
@@ -575,7 +594,7 @@ def run(ctx, res):
             res.count("outside-premise:unpaired-begin-end")
             continue
         if (r == "Matched") != (t.get("spec") == "1"):
-            key = KEY_F8 if (t.get("exact") == "0" and r != "Matched") else None
+            key = None
             res.violation("Suppression::isSuppressed = %s but the documented rules say %s: suppression %s finding %s" % (r, "match" if t.get("spec") == "1" else "no match", s, m),
                           dict(kind="is", s=s, m=m, real=r, documented=t.get("spec")), concrete=True, key=key)
 
@@ -615,7 +634,7 @@ def run(ctx, res):
         spec = t["spec"] if t["spec"] != "_" else ""
         for j, (b, sp, md) in enumerate(zip(bits, spec, modes)):
             if md == "n" and b != sp:
-                key = KEY_F8 if (t.get("exact") == "0" and b == "0") else None
+                key = None
                 res.violation("SuppressionList::isSuppressed = %s but by the documented rules %s entry of the list matches: list %s finding %s" % (b, "an" if sp == "1" else "no", added, ms[j]),
                               dict(kind="ls", global_=g, supprs=ss, msgs=ms, modes=modes, index=j, real=b, documented=sp), concrete=True, key=key)
 
@@ -738,10 +757,6 @@ def run_gates(ctx, res, exe, drv, gs, name):
             first = [x for x in range(len(dk)) if mk(x) == mk(j)][0]
             if first == j and want is not None and (j in reported) != want:
                 key = None
-                if want and not (j in reported) and (text in seen_sup_text) and not g["cfg"]["dup"]:
-                    key = KEY_DUP
-                elif t.get("exact") == "0" and (j in reported) and not want:
-                    key = KEY_F8
                 nviol += 1
                 res.violation("report gate: finding #%d %s is %s although %s by the documented rules (settings %s, nomsg %s)" %
                               (j, g["fs"][kept[j]], "reported" if j in reported else "not reported", "no active suppression matches it" if want else "it is suppressed / filtered", g["cfg"], added),
@@ -884,7 +899,7 @@ def cli_cases(ctx, res, drv, corpus, thorough, generate=True):
             res.case("cli|%s|%s" % (c["files"][p["file"]], p), True, dict(tie="cli", finding=str(key3), mode=p["why"], reported=rep) if nf % 97 == 1 else None)
             res.count("cli:" + p["why"])
             if rep == p["suppressed"]:
-                key = KEY_F8 if (p["why"] == "starstar" and rep) else None
+                key = None
                 res.violation("cppcheck --inline-suppr: finding %s is %s but the documented inline-suppression rules say it is %s (comment form: %s)" %
                               (key3, "reported" if rep else "hidden", "suppressed" if p["suppressed"] else "not suppressed", p["why"]),
                               dict(kind="cli", cli=c, finding=list(key3), real_reported=rep, documented_suppressed=p["suppressed"]), concrete=True, key=key)
@@ -904,7 +919,7 @@ def cli_cases(ctx, res, drv, corpus, thorough, generate=True):
         rc2, out2, err2 = core.sh([exe, "-q"] + w["args_nosuppress"] + ["a.c"], cwd=d, timeout=120)
         if err2.strip() and not err.strip():
             res.violation("cppcheck %s: the unsuppressed finding on line 4 is not reported because the suppressed finding on line 3 rendered to the same text" % " ".join(w["args"]),
-                          dict(kind="cli-duptext", witness=w, stderr=err, stderr_nosuppress=err2), concrete=True, key=KEY_DUP)
+                          dict(kind="cli-duptext", witness=w, stderr=err, stderr_nosuppress=err2), concrete=True, key=None)
 
 
 # ---------------------------------------------------------------------------------------------------------------
@@ -920,7 +935,7 @@ def search(ctx, res, exe, drv):
         real = head(hi).split()[1]
         spec = tail_fields(mo).get("spec")
         if ci == 0 and real != spec:
-            key = KEY_F8 if (not_star_ok(p) and real == "0") else None
+            key = None
             if key is None:
                 found += 1
                 res.violation("search: matchglob(%r, %r) = %s, documented language says %s" % (p, n, real, spec),
@@ -941,7 +956,7 @@ def search(ctx, res, exe, drv):
         r = head(hi)
         if s["type"] in (3, 4) or "spec" not in t:
             continue
-        if (r == "Matched") != (t.get("spec") == "1") and not (t.get("exact") == "0" and r != "Matched"):
+        if (r == "Matched") != (t.get("spec") == "1"):
             res2.violation("search: Suppression::isSuppressed = %s, documented rules say %s: %s %s" % (r, t.get("spec"), s, m),
                            dict(kind="is", s=s, m=m, real=r, documented=t.get("spec")), concrete=True, key=None)
     for v in res2.violations:
